@@ -13,7 +13,7 @@ RULE = ('cases: seeded operation histories (insert / replace / non-negative incr
         'up to 200 candidates; weight families: equal, dyadic, non-dyadic, 1e-12..1e12, with zeros; adversarial patterns: repeatedly remove / replace the '
         'heaviest, drain to empty and refill, all-equal weights.  After every block the full selection law is extracted.  Non-trivial = law extracted on '
         '>=2 candidates with distinct weights at least once; distinct = (pattern, weight family, size bucket, mode).')
-ASSUMPTIONS = ['a rejection bound that is stale-high is correct (only slower) and is not flagged; stale-low is']
+ASSUMPTIONS = ['a rejection bound that is stale-high but not above the largest weight present since the list was last empty is correct (only slower) and is not flagged; stale-low is, and so is a bound that nothing present since the last empty state explains (bounded progress)']
 BUDGET = {'quick': 150, 'thorough': 1200}
 CHUNK = {'quick': 20, 'thorough': 100}
 REQUIRED = ['bounds_checked_against_history_since_last_empty', 'endurance_runs', 'long_history_totals_checked', 'dominant_candidate_removals', 'laws_extracted', 'candidates_law_checked', 'totals_checked', 'heaviest_changes', 'zero_weight_candidates_seen', 'real_selections_checked']
